@@ -14,13 +14,13 @@ import (
 //
 // The tokens zlexer.Next hands out are copies of two places: zl.l and the heap copy Peek parks in zl.cachedL (itself a
 // copy of a Next result). The contract holds for every value read from those places when
-//   1. every store to the token field of one of them stores a non-empty constant, or string(str[:stri]) at a point
-//      where 1 <= stri is entailed by the dominating comparisons;
-//   2. every store of zString to the value field of one of them is followed, in the same basic block, by a store to
-//      its token field (so value == zString is never observable with a token from before the first token store);
-//   3. pointers to the two places are only dereferenced, never passed on or stored (so 1 and 2 see every write);
-//      zl.l is never overwritten whole; zl.cachedL only ever receives nil or a fresh copy of a Next result;
-//   4. Next returns only such copies, or literals / zero values whose value field is not zString.
+//  1. every store to the token field of one of them stores a non-empty constant, or string(str[:stri]) at a point
+//     where 1 <= stri is entailed by the dominating comparisons;
+//  2. every store of zString to the value field of one of them is followed, in the same basic block, by a store to
+//     its token field (so value == zString is never observable with a token from before the first token store);
+//  3. pointers to the two places are only dereferenced, never passed on or stored (so 1 and 2 see every write);
+//     zl.l is never overwritten whole; zl.cachedL only ever receives nil or a fresh copy of a Next result;
+//  4. Next returns only such copies, or literals / zero values whose value field is not zString.
 type lexContract struct {
 	holds    bool
 	problems []string
